@@ -265,7 +265,20 @@ impl Property for C27 {
         if check(&c0).map(|v| v.class).as_deref() == Some(class) {
             start = c0;
         }
-        let (min, steps) = super::execmin::minimise(&start, class, &|c| check(c).map(|v| v.class));
+        let (mut min, steps) = super::execmin::minimise(&start, class, &|c| check(c).map(|v| v.class));
+        // keep only the world outcomes the minimised case still consults
+        if let Ok(p) = exec::parse(&min) {
+            let out = exec::check_c27(&min, &p, false);
+            let mut consulted = std::collections::BTreeSet::new();
+            for r in [&out.sync, &out.asyn].into_iter().flatten() {
+                consulted.extend(r.world.consulted.keys().cloned());
+            }
+            let mut pruned = min.clone();
+            pruned.overrides.retain(|k, _| consulted.contains(k));
+            if check(&pruned).map(|v| v.class).as_deref() == Some(class) {
+                min = pruned;
+            }
+        }
         (min.to_json(), steps + 1)
     }
 
